@@ -175,18 +175,23 @@ class _TzdbStreamData:
         """
         _Preconditions._check_not_null(id_, "id_")
         _Preconditions._check_not_null(canonical_id, "canonical_id")
-        with self.__zone_fields[canonical_id]._create_stream() as stream:
-            reader = _DateTimeZoneReader._ctor(stream, self.__string_pool)
-            # Skip over the ID before the zone data itself
-            reader.read_string()
-            type_ = _DateTimeZoneWriter._DateTimeZoneType(reader.read_byte())
-            match type_:
-                case _DateTimeZoneWriter._DateTimeZoneType.FIXED:
-                    return _FixedDateTimeZone.read(reader, id_)
-                case _DateTimeZoneWriter._DateTimeZoneType.PRECALCULATED:
-                    return _CachedDateTimeZone._for_zone(_PrecalculatedDateTimeZone._read(reader, id_))
-                case _:
-                    raise InvalidPyodaDataError(f"Unknown time zone type {type_.name}")
+        try:
+            with self.__zone_fields[canonical_id]._create_stream() as stream:
+                reader = _DateTimeZoneReader._ctor(stream, self.__string_pool)
+                # Skip over the ID before the zone data itself
+                reader.read_string()
+                type_ = _DateTimeZoneWriter._DateTimeZoneType(reader.read_byte())
+                match type_:
+                    case _DateTimeZoneWriter._DateTimeZoneType.FIXED:
+                        return _FixedDateTimeZone.read(reader, id_)
+                    case _DateTimeZoneWriter._DateTimeZoneType.PRECALCULATED:
+                        return _CachedDateTimeZone._for_zone(_PrecalculatedDateTimeZone._read(reader, id_))
+                    case _:
+                        raise InvalidPyodaDataError(f"Unknown time zone type {type_.name}")
+        except InvalidPyodaDataError:
+            raise
+        except (ValueError, OverflowError, LookupError, RuntimeError, struct.error) as e:
+            raise InvalidPyodaDataError(f"Invalid data for time zone {canonical_id}: {e}") from e
 
     @staticmethod
     def _check_not_null(input_: T | None, name: str) -> T:
@@ -198,14 +203,19 @@ class _TzdbStreamData:
     def _from_stream(cls, stream: BinaryIO) -> _TzdbStreamData:
         _Preconditions._check_not_null(stream, "stream")
 
-        version = struct.unpack("i", stream.read(4))[0]
-        if version != cls.__ACCEPTED_VERSION:
-            raise InvalidPyodaDataError(f"Unable to read stream with version {version}")
+        try:
+            version = struct.unpack("i", stream.read(4))[0]
+            if version != cls.__ACCEPTED_VERSION:
+                raise InvalidPyodaDataError(f"Unable to read stream with version {version}")
 
-        builder = cls._Builder()
-        for field in _TzdbStreamField._read_fields(stream):
-            handler = cls.__FIELD_HANDLERS.get(field.id)
-            if handler:
-                handler(builder, field)
+            builder = cls._Builder()
+            for field in _TzdbStreamField._read_fields(stream):
+                handler = cls.__FIELD_HANDLERS.get(field.id)
+                if handler:
+                    handler(builder, field)
 
-        return cls(builder)
+            return cls(builder)
+        except InvalidPyodaDataError:
+            raise
+        except (ValueError, OverflowError, LookupError, struct.error) as e:
+            raise InvalidPyodaDataError(f"Invalid TZDB data: {e}") from e
